@@ -560,14 +560,7 @@ func (s *Sched) Run(stop func() bool, until time.Time, idleReturn bool, maxIdle 
 		}
 		e := s.enabledLocked()
 		if len(e) > 0 {
-			// background goroutines (tickers, probes) keep running while the workload is
-			// stuck: only workload progress ends an idle period
-			for _, t := range e {
-				if !t.Background {
-					idleStart = time.Time{}
-					break
-				}
-			}
+			idleStart = time.Time{}
 			if s.StallDenom > 0 && s.StallBudget > 0 && len(s.StallDurs) > 0 && s.choose(s.StallDenom, "stall?") == 0 {
 				t := e[0]
 				if len(e) > 1 {
